@@ -30,6 +30,9 @@ type fsShared struct {
 	mu      sync.Mutex
 	cond    *sync.Cond
 	hold    bool
+	holdOne int // 1: the next table file to be created is held back (only that one); 2: it is being held
+	holdNth int // > 0: the n-th table file to be created is held back (only that one)
+	created int // table files created so far
 	waiting int
 	files   map[string][]byte // uri -> content of saved files
 	Log     []FSEvent
@@ -57,8 +60,34 @@ func (f *FS) WithWorkingDir(dir string) *FS {
 func (f *FS) Hold(h bool) {
 	f.sh.mu.Lock()
 	f.sh.hold = h
+	if !h {
+		f.sh.holdOne = 0
+	}
 	f.sh.mu.Unlock()
 	f.sh.cond.Broadcast()
+}
+
+// HoldNext holds back the next table file to be created, and only that one: the task that
+// creates it (a flush or a compaction step) stays in the middle of its work while later
+// tasks of the other queue run. Hold(false) releases it.
+func (f *FS) HoldNext() {
+	f.sh.mu.Lock()
+	f.sh.holdOne = 1
+	f.sh.mu.Unlock()
+}
+
+// HoldNth holds back the n-th table file to be created (counting from 1), and only that one.
+func (f *FS) HoldNth(n int) {
+	f.sh.mu.Lock()
+	f.sh.holdNth = n
+	f.sh.mu.Unlock()
+}
+
+// Blocked reports how many creators of table files are being held back right now.
+func (f *FS) Blocked() int {
+	f.sh.mu.Lock()
+	defer f.sh.mu.Unlock()
+	return f.sh.waiting
 }
 
 // Record switches snapshot recording on or off.
@@ -107,8 +136,13 @@ func (s *fsShared) event(op string) {
 func (f *FS) New(path string) storage.File {
 	if strings.HasSuffix(path, ".sst") {
 		f.sh.mu.Lock()
+		mine := false
+		f.sh.created++
+		if f.sh.holdOne == 1 || (f.sh.holdNth > 0 && f.sh.created == f.sh.holdNth) {
+			f.sh.holdOne, mine = 2, true
+		}
 		f.sh.waiting++
-		for f.sh.hold {
+		for f.sh.hold || (mine && f.sh.holdOne == 2) {
 			f.sh.cond.Wait()
 		}
 		f.sh.waiting--
